@@ -26,6 +26,7 @@ import (
 
 	"github.com/golang/geo/r3"
 	"github.com/golang/geo/s2"
+	"verifharness/internal/exactref"
 	"verifharness/internal/vkit"
 )
 
@@ -145,10 +146,13 @@ func exactDet(a, b, c s2.Point) int {
 
 type oracle struct {
 	ties int
+	memo map[string]int
 }
 
-// sign: 0 iff two points are ==; the exact determinant sign when it is not zero; the
-// library's perturbation (RobustSign) only for exact ties.
+// sign: the documented meaning of RobustSign, computed without any s2 predicate: 0 iff two
+// points are ==; the exact determinant sign when it is not zero; for an exact tie the sign of
+// the symbolically perturbed determinant, evaluated from the DEFINITION of the perturbation
+// (Leibniz expansion in harness/internal/exactref), not from the library's table.
 func (o *oracle) sign(a, b, c s2.Point) int {
 	if a == b || b == c || c == a {
 		return 0
@@ -156,8 +160,20 @@ func (o *oracle) sign(a, b, c s2.Point) int {
 	if d := exactDet(a, b, c); d != 0 {
 		return d
 	}
+	if o.memo == nil {
+		o.memo = map[string]int{}
+	}
+	k := key(a) + key(b) + key(c)
+	if v, ok := o.memo[k]; ok {
+		return v
+	}
 	o.ties++
-	return int(s2.RobustSign(a, b, c))
+	v, _ := exactref.Sign(a, b, c)
+	if len(o.memo) > 200000 {
+		o.memo = map[string]int{}
+	}
+	o.memo[k] = v
+	return v
 }
 
 func (o *oracle) crossing(a, b, c, d s2.Point) s2.Crossing {
@@ -198,7 +214,14 @@ func blame(kind string, triples ...[3]s2.Point) string {
 			continue
 		}
 		ex := exactDet(a, b, c)
-		if ex == 0 || int(s2.RobustSign(a, b, c)) == ex {
+		if ex == 0 {
+			// exact tie: the library's symbolic perturbation against its definition
+			if want, _ := exactref.Sign(a, b, c); int(s2.RobustSign(a, b, c)) != want {
+				return "CrossingSign.exact.perturbation"
+			}
+			continue
+		}
+		if int(s2.RobustSign(a, b, c)) == ex {
 			continue
 		}
 		if tr := int(s2.VerifC03TriageSign(a, b, c)); tr != 0 {
@@ -215,12 +238,26 @@ func quadTriples(a, b, c, d s2.Point) [][3]s2.Point {
 	return [][3]s2.Point{{a, b, c}, {a, b, d}, {c, d, b}, {c, d, a}}
 }
 
-// antipodal: b == -a componentwise (Go ==). Such a pair is not a geodesic edge (S2 forbids
-// 180-degree edges; PointCross(a,-a) is the zero vector and the crosser's normal is arbitrary):
-// outside the property's domain. These inputs stay in the streams as an informational class
-// (panics, model correspondence, crosser vs stateless function) but are not compared with the
-// exact criterion.
-func antipodal(a, b s2.Point) bool { return b.X == -a.X && b.Y == -a.Y && b.Z == -a.Z }
+// antipodal: a and b are EXACTLY antiparallel as real vectors (exact cross product zero, exact
+// dot product negative); b == -a componentwise is the special case of equal lengths, but
+// -(1,1,1)/sqrt3 and (1-2^-53)(1,1,1)/sqrt3 are just as much a 180-degree "edge". Such a pair
+// is not a geodesic edge (S2 forbids 180-degree edges; PointCross(a,b) is the zero vector and
+// the crosser's normal is arbitrary): outside the property's domain. These inputs stay in the
+// streams as an informational class (panics, model correspondence, crosser vs stateless
+// function) but are not compared with the exact criterion.
+func antipodal(a, b s2.Point) bool {
+	if s := a.Add(b.Vector); s.Norm2() > 1e-20 { // clearly not opposite: skip the exact test
+		return false
+	}
+	A, B := exactref.RV(a), exactref.RV(b)
+	for i := 0; i < 3; i++ {
+		j := (i + 1) % 3
+		if exactref.Sub(exactref.Mul(A[i], B[j]), exactref.Mul(A[j], B[i])).Sign() != 0 {
+			return false
+		}
+	}
+	return exactref.Dot(A, B).Sign() < 0
+}
 
 // ---------- point pools ----------
 
@@ -240,7 +277,35 @@ func randPoint(rng *vkit.Rng) s2.Point {
 	}
 }
 
+// planePoint returns a point EXACTLY on one of seven planes through the origin: the coordinate
+// planes z==0, x==0, y==0 (plane 0..2) and the diagonal planes x==y, x==-y, y==z, x==z
+// (plane 3..6; Normalize divides equal coordinates by the same number, so they stay equal).
+// Any three such points have an exactly zero determinant: the answer is the perturbation's.
+var niceCoord = []float64{1, -1, 2, -2, 0.5, -0.25, 3, 4, 0, 0.75, -1.5}
+
 func planePoint(rng *vkit.Rng, plane int) s2.Point {
+	if plane >= 3 {
+		for {
+			t, z := niceCoord[rng.Intn(len(niceCoord))], niceCoord[rng.Intn(len(niceCoord))]
+			if rng.Intn(3) == 0 {
+				t, z = rng.Range(-1, 1), rng.Range(-1, 1)
+			}
+			var v r3.Vector
+			switch plane {
+			case 3:
+				v = r3.Vector{X: t, Y: t, Z: z}
+			case 4:
+				v = r3.Vector{X: t, Y: -t, Z: z}
+			case 5:
+				v = r3.Vector{X: z, Y: t, Z: t}
+			default:
+				v = r3.Vector{X: t, Y: z, Z: t}
+			}
+			if _, ok := norm(v); ok {
+				return s2.Point{Vector: v.Normalize()}
+			}
+		}
+	}
 	t := rng.Range(0, 2*math.Pi)
 	if rng.Intn(4) == 0 {
 		t = float64(rng.Intn(8)) * math.Pi / 4
@@ -257,6 +322,23 @@ func planePoint(rng *vkit.Rng, plane int) s2.Point {
 	}
 	p, _ := norm(v)
 	return p
+}
+
+// proportional returns a point exactly proportional to p and different from it, if scaling by
+// 1-2^-53 keeps the direction exactly (all non-zero coordinates of equal magnitude).
+func proportional(p s2.Point) (s2.Point, bool) {
+	q := s2.Point{Vector: p.Mul(0.99999999999999989)}
+	if q == p {
+		return q, false
+	}
+	P, Q := exactref.RV(p), exactref.RV(q)
+	for i := 0; i < 3; i++ {
+		j := (i + 1) % 3
+		if exactref.Sub(exactref.Mul(P[i], Q[j]), exactref.Mul(P[j], Q[i])).Sign() != 0 {
+			return q, false
+		}
+	}
+	return q, true
 }
 
 var epsBeyond = []float64{1e-16, 1.5e-16, 2e-16, 3e-16, 4e-16, 6e-16, 1e-15, 3e-15, 1e-14, 1e-12, 1e-9, 1e-5}
@@ -279,7 +361,7 @@ func perturbUlp(rng *vkit.Rng, p s2.Point) s2.Point {
 
 func genPool(c *vkit.Collector, rng *vkit.Rng) []s2.Point {
 	n := 4 + rng.Intn(9)
-	plane := rng.Intn(3)
+	plane := rng.Intn(7)
 	pool := []s2.Point{}
 	base := func() s2.Point {
 		if rng.Intn(3) == 0 {
@@ -361,6 +443,11 @@ func genPool(c *vkit.Collector, rng *vkit.Rng) []s2.Point {
 			c.Class("pt:antipode")
 			pool = append(pool, s2.Point{Vector: p.Mul(-1)})
 		default:
+			if q, ok := proportional(p); ok && rng.Bool() {
+				c.Class("pt:exactly proportional to another")
+				pool = append(pool, q)
+				break
+			}
 			c.Class("pt:axis")
 			ax := [][3]float64{{1, 0, 0}, {0, 1, 0}, {0, 0, 1}, {-1, 0, 0}, {0, -1, 0}, {0, 0, -1}}[rng.Intn(6)]
 			pool = append(pool, s2.Point{Vector: r3.Vector{X: ax[0], Y: ax[1], Z: ax[2]}})
@@ -852,6 +939,145 @@ func (o *obs) tangentAttack() {
 	}
 }
 
+// collinearFamily: a small point set dominated by EXACTLY collinear / coincident / proportional
+// points (one diagonal or coordinate plane, duplicates, an exactly proportional pair, a few
+// points off the plane), swept exhaustively: for every ordered quadruple CrossingSign,
+// EdgeOrVertexCrossing and a crosser reused along the row must equal the four-orientation
+// criterion evaluated with the independent perturbation oracle; and two triangles on six
+// different points must cross an even number of times (true of every configuration in general
+// position, hence of any consistent perturbation).
+func (o *obs) collinearFamily(plane int) {
+	c, rng := o.c, o.rng
+	pts := []s2.Point{}
+	add := func(p s2.Point) {
+		for _, q := range pts {
+			if key(q) == key(p) {
+				return
+			}
+		}
+		pts = append(pts, p)
+	}
+	for len(pts) < 5 {
+		add(planePoint(rng, plane))
+	}
+	// the demo's points on x == y and its proportional pair, mapped into the chosen plane's family
+	p3, _ := norm(r3.Vector{X: 1, Y: 1, Z: 1})
+	if q, ok := proportional(p3); ok && (plane == 3 || plane == 5 || plane == 6 || rng.Bool()) {
+		add(p3)
+		add(q)
+	}
+	for _, p := range append([]s2.Point{}, pts...) {
+		if q, ok := proportional(p); ok && rng.Intn(3) == 0 {
+			add(q)
+		}
+	}
+	for len(pts) < 9 {
+		switch rng.Intn(4) {
+		case 0:
+			add(randPoint(rng))
+		case 1:
+			ax := [][3]float64{{1, 0, 0}, {0, 1, 0}, {0, 0, 1}, {1, -1, 0}, {0, 1, 1}, {2, 1, 0}, {1, 2, 1}, {1, 0.5, 0.25}}[rng.Intn(8)]
+			if p, ok := norm(r3.Vector{X: ax[0], Y: ax[1], Z: ax[2]}); ok {
+				add(p)
+			}
+		default:
+			add(planePoint(rng, plane))
+		}
+	}
+	n := len(pts)
+	c.Class(fmt.Sprintf("collinear-family:plane%d", plane))
+	cache := make([]s2.Crossing, n*n*n*n)
+	for ia, a := range pts {
+		for ib, b := range pts {
+			crosser := s2.NewEdgeCrosser(a, b)
+			anti := antipodal(a, b)
+			for ic, cc := range pts {
+				for id, d := range pts {
+					got := s2.CrossingSign(a, b, cc, d)
+					cache[((ia*n+ib)*n+ic)*n+id] = got
+					got2 := crosser.CrossingSign(cc, d)
+					c.Evals++
+					if got2 != got {
+						c.Violate("EdgeCrosser.history", fmt.Sprintf("crosser reused along a row answered %v, stateless CrossingSign %v", got2, got), replayQuad(a, b, cc, d))
+					}
+					if anti || antipodal(cc, d) {
+						continue
+					}
+					want := o.or.crossing(a, b, cc, d)
+					if got != want {
+						c.Violate(blame("CrossingSign.exact", quadTriples(a, b, cc, d)...), fmt.Sprintf("CrossingSign=%v but the four-orientation criterion in exact arithmetic with the documented perturbation says %v", got, want), replayQuad(a, b, cc, d))
+					}
+					if (ia+ib+ic+id)%7 == 0 {
+						wantE := want == s2.Cross || (want == s2.MaybeCross && s2.VertexCrossing(a, b, cc, d))
+						if s2.EdgeOrVertexCrossing(a, b, cc, d) != wantE {
+							c.Violate(blame("EdgeOrVertexCrossing.consistency", quadTriples(a, b, cc, d)...), "EdgeOrVertexCrossing is not (Cross, or Maybe and VertexCrossing) of the exact criterion", replayQuad(a, b, cc, d))
+						}
+					}
+				}
+			}
+		}
+	}
+	c.NonTrivial[fmt.Sprintf("fam%d%s%s", plane, key(pts[0]), key(pts[n-1]))] = true
+	// triangle parity
+	okTri := func(t [3]int) bool {
+		for k := 0; k < 3; k++ {
+			x, y := pts[t[k]], pts[t[(k+1)%3]]
+			if x == y || antipodal(x, y) {
+				return false
+			}
+		}
+		return true
+	}
+	bad := 0
+	for i0 := 0; i0 < n; i0++ {
+		for i1 := i0 + 1; i1 < n; i1++ {
+			for i2 := i1 + 1; i2 < n; i2++ {
+				ti := [3]int{i0, i1, i2}
+				if !okTri(ti) {
+					continue
+				}
+				for j0 := i0 + 1; j0 < n; j0++ {
+					for j1 := j0 + 1; j1 < n; j1++ {
+					next:
+						for j2 := j1 + 1; j2 < n; j2++ {
+							tj := [3]int{j0, j1, j2}
+							if !okTri(tj) {
+								continue
+							}
+							for _, x := range ti {
+								for _, y := range tj {
+									if x == y || pts[x] == pts[y] {
+										continue next
+									}
+								}
+							}
+							count := 0
+							for k := 0; k < 3; k++ {
+								for l := 0; l < 3; l++ {
+									if cache[((ti[k]*n+ti[(k+1)%3])*n+tj[l])*n+tj[(l+1)%3]] == s2.Cross {
+										count++
+									}
+								}
+							}
+							if count%2 != 0 && bad < 3 {
+								bad++
+								tri := []r3.Vector{}
+								for _, x := range ti {
+									tri = append(tri, pts[x].Vector)
+								}
+								for _, y := range tj {
+									tri = append(tri, pts[y].Vector)
+								}
+								c.Violate("CrossingSign.triangle-parity", fmt.Sprintf("two triangles on six different points cross %d times (odd): impossible for any perturbation into general position", count), map[string]interface{}{"triangle1+triangle2": tri})
+							}
+						}
+					}
+				}
+			}
+		}
+	}
+}
+
 func bitsPoint(x, y, z uint64) s2.Point {
 	return s2.Point{Vector: r3.Vector{X: math.Float64frombits(x), Y: math.Float64frombits(y), Z: math.Float64frombits(z)}}
 }
@@ -923,6 +1149,14 @@ func (o *obs) twinAttack(pool []s2.Point) {
 func run(c *vkit.Collector, rng *vkit.Rng, budget int) {
 	o := &obs{c: c, rng: rng, or: &oracle{}}
 	o.corpus()
+	// exactly collinear families, one of the seven planes each; x == y (the demo's) always first
+	for k := 0; k < 6*budget; k++ {
+		plane := 3
+		if k > 0 {
+			plane = rng.Intn(7)
+		}
+		o.collinearFamily(plane)
+	}
 	nh := 220 * budget
 	for h := 0; h < nh; h++ {
 		pool := genPool(c, rng)
@@ -969,5 +1203,5 @@ func run(c *vkit.Collector, rng *vkit.Rng, budget int) {
 	for k := 0; k < 1500*budget; k++ {
 		o.tangentAttack()
 	}
-	c.Extra["oracle_ties_resolved_by_RobustSign"] = o.or.ties
+	c.Extra["oracle_ties_resolved_by_the_perturbation_definition"] = o.or.ties
 }
